@@ -226,7 +226,12 @@ class SequenceContainer(common.Parseable, common.XmlObject):
         -------
         : ElementTree.Element
         """
-        containers = tree.getroot().find("TelemetryMetaData/ContainerSet").findall(f"SequenceContainer[@name='{name}']")
+        # Compare the name attribute in Python rather than in an XPath predicate: a predicate is not namespace-prefixed
+        # consistently (names containing e.g. parentheses were only found in documents without an XTCE namespace prefix)
+        containers = [
+            el for el in tree.getroot().find("TelemetryMetaData/ContainerSet").findall("SequenceContainer")
+            if el.attrib.get("name") == name
+        ]
         if len(containers) != 1:
             raise ValueError(f"Found {len(containers)} matching container_set with name {name}. "
                              f"Container names are expected to exist and be unique.")
